@@ -81,17 +81,27 @@ def _exp_of(m):
 
 
 def lex_embedded(text, kind):
-    """Every number written inside a longer text (a printed rate expression), in order."""
+    """Every number written inside a longer text (a printed rate expression), in order.
+
+    The property asks that the magnitudes are shown, not how they are typeset: inside an expression
+    a number may be written in the printer's own presentation or in plain e-notation (the LaTeX
+    printer prints rate expressions through str()); the longer reading wins.  A '-' inside the
+    expression belongs to the expression ("exp(-Ea/(R*T))"), only a leading one is a sign."""
+    kinds = [kind] + (["plain"] if kind != "plain" else [])
     out, i = [], 0
     while i < len(text):
         ch = text[i]
         prev = text[i - 1] if i else " "
-        if (ch.isdigit() or (ch == "-" and i + 1 < len(text) and text[i + 1].isdigit())) \
-                and not (prev.isalnum() or prev in "._"):
-            obs = lex_number(text[i:], kind, prefix=True)
-            if obs["lexed"]:
-                out.append(obs)
-                i += max(1, obs.pop("consumed"))
+        start = ch.isdigit() or (i == 0 and ch == "-" and len(text) > 1 and text[1].isdigit())
+        if start and not (prev.isalnum() or prev in "._"):
+            best = None
+            for k in kinds:
+                obs = lex_number(text[i:], k, prefix=True)
+                if obs["lexed"] and (best is None or obs["consumed"] > best["consumed"]):
+                    best = obs
+            if best is not None:
+                out.append(best)
+                i += max(1, best.pop("consumed"))
                 continue
         i += 1
     return out
